@@ -39,18 +39,49 @@ THEOREMS = [
     "C05.findOperatorOld_counterexample",
     "C05.orSliceOld_counterexample",
     "C05.findGoalEndOld_counterexample",
+    # --- follow-up (Model2 / Theorems2): text layer of the GRL parser, after fix-C05j
+    "C05.stripComments_total",
+    "C05.maskLiterals_total",
+    "C05.unmask_total",
+    "C05.unmask_no_panic",
+    "C05.notARuleText_total",
+    "C05.maskOld_roundtrip_counterexample",
+    # accumulate kernels, module context, attribute section
+    "C05.splitAccParts_no_panic",
+    "C05.splitAccParts_i32_counterexample",
+    "C05.parseAccPattern_no_panic",
+    "C05.parseAccFunction_no_panic",
+    "C05.parseAccCondition_no_panic",
+    "C05.extractModule_no_panic",
+    "C05.attrsSection_no_panic",
+    # evaluate_expression including the branches of apply_operator
+    "C05.evalValue_no_panic",
+    "C05.evalValue_total",
+    # nom stream grammar over an abstract set of primitive combinators
+    "C05.streamParsers_no_panic",
+    "C05.streamParsers_consume",
+    "C05.nomRef_contract",
+    "C05.parseDurationOld_counterexample",
 ]
-N = {"quick": 8000, "thorough": 150000}
+LEAN_TARGETS = ["RreModel.C05.Theorems", "RreModel.C05.Theorems2"]
+N = {"quick": 14000, "thorough": 200000}
 ROBUST_N = {"quick": 12000, "thorough": 150000}
 ROBUST_BUDGET_S = {"quick": 75, "thorough": 700}
 EXHAUSTIVE = {"quick": False, "thorough": False}
 EXEC_TIMEOUT = 1800
 LEVEL = "proof"
 RULE = ("PROOF PART: cases = corpus + every string of length <= 3 over {e-acute, \", ', a, +, space, 1} on evaluate_expression and "
-        "on parse_value (through a rule) + N generated strings, each for one of 12 modelled entries (ExpressionParser::parse, "
-        "QueryParser::parse, evaluate_expression, DisjunctionParser::parse/contains_or, GRLQueryParser::parse/parse_queries, "
+        "on parse_value (through a rule) + every `a op b` over 22 arithmetic corner operands (zero divisors, i64 extremes, floats, "
+        "numeric/non-numeric strings, integer/float/string/boolean facts) x {+ - * / %} on evaluate_expression + every string of "
+        "length <= 4 over {U+0001, U+0002, 0, \", a, newline} and over {/, *, \", newline, a, '} through the text layer "
+        "(strip_comments -> mask_string_literals -> clean_text -> unmask, observed in parse_rule's error message) + N generated "
+        "strings, each for one of 24 modelled entries (ExpressionParser::parse, "
+        "QueryParser::parse, evaluate_expression with fixed facts, DisjunctionParser::parse/contains_or, GRLQueryParser::parse/parse_queries, "
         "parse_aggregate_query, NestedQueryParser::has_nested/parse, parse_value through a condition value and through an "
-        "assignment) or the nom stream-pattern parser (not modelled). The real code runs in the harness process (a child of "
+        "assignment (via mask/unmask), all seven public nom parsers of stream_syntax.rs, the text layer (PU), the rule name through "
+        "mask+unmask (PN), parse_accumulate_condition through a rule (AC), extract_module_from_context through parse_with_modules (MC), "
+        "parse_rule_attributes through a rule (AT)); inputs include placeholder-looking text (U+0001 <digits> U+0002 with indices "
+        "beyond the table, 20-digit and signed indices, raw delimiters). The real code runs in the harness process (a child of "
         "check.py; panics caught with their payload, a dead process is bisected to the killing case); the Lean model predicts "
         "ok <canonical result> | err | fine(=ok-or-err) per case; predictions are diffed and Spec.holds (no panic/crash/hang) "
         "is evaluated on the implementation's observation. Non-trivial = a multi-byte char occurs before an ASCII "
@@ -66,12 +97,22 @@ TRUSTED = [
     "a Rust &str is a List Char with widths Char.utf8Size; is_char_boundary(i) <=> i is the byte length of a prefix (std's str invariant)",
     "std's char classification (is_whitespace/is_alphabetic/is_numeric) is an input of each case, computed by the harness",
     "str::parse::<i64>/<f64> acceptance is modelled by parseI64/isF64 (grammar only); regex `query\\s+\"[^\"]+\"\\s*\\{` by a scanner",
-    "NOT modelled (search only): the rexile regex engine, nom (stream_syntax.rs), chrono, formatting; stack bytes per frame are measured, not proved",
+    "nom: the seven primitive combinators used by stream_syntax.rs (multispace0/1, digit1, alpha1, take_while1, tag, char) are a parameter "
+    "of the model with the contract Nom.Sound (output ++ rest = input; the ...1 parsers, char and tag of a non-empty pattern consume); "
+    "opt/delimited/tuples/alt are written out as sequencing glue; the driver predicts with the reference instance nomRef (proved to meet the contract)",
+    "str::parse::<usize>/<u64> acceptance is modelled by parseUsize (optional +, ASCII digits, <= 2^64-1: a 64-bit target); usize::to_string by Nat.toDigits 10",
+    "regexes around the new kernels (rule/when-then/attribute regexes) are not modelled: the driver predicts PN/AC/MC/AT only when the cleaned text has "
+    "the wrapper's exact shape, otherwise `-` (oracle only); `\\b` and `\"[^\"]*\"` of parse_rule_attributes by small scanners (ASCII only)",
+    "NOT modelled (search only): the rexile regex engine, chrono, formatting; stack bytes per frame are measured, not proved",
     "harness/src/bin/c05.rs, Driver/C05.lean glue, check.py diff",
 ]
 ASSUMPTIONS = [
     "theorems are about the kernels after fix-C05.patch; the pre-fix kernels are refuted by the *_counterexample theorems",
-    "evaluate_expression is driven with empty Facts (value arithmetic is C01's subject); its model over-approximates the executed slices",
+    "evaluate_expression is driven with a fixed Facts table (13 flat keys: integer 0/7/-1/i64::MIN/i64::MAX, floats 2.5/0.0, strings, a boolean); "
+    "its model follows apply_operator's control flow (numeric conversion, string concatenation, division by zero) and leaves `fine` only where an "
+    "f64 literal may underflow to 0; it over-approximates the executed slices; the numeric results themselves are C01's subject",
+    "the i32 paren_depth counters of split_accumulate_parts/split_pattern_parts are modelled with overflow = panic; the no-panic theorems carry the "
+    "explicit hypothesis `chars < 2^31` (a 2 GiB input overflows: splitAccParts_i32_counterexample, outside the 4 KiB quantifier)",
     "depth fuel = chars + 1 per recursive kernel: Rust stack use is (frames per level) x (bytes per frame), measured by the 4 KiB chains on an 8 MiB stack",
     "the search stream caps `when` leaves at 40 bytes so that it does not only re-find F-C05h (condition_regex ~quartic); F-C05h is probed separately",
 ]
@@ -79,11 +120,14 @@ LEVEL_TEXT = ("Lean 4 theorems (kernel-checked, for every string and every Unico
               "kernels of the parsers never panic and terminate with recursion depth <= chars + 1: complete model of ExpressionParser "
               "(parse_total, index_safe, depth_le_length) and byte-level models of evaluate_expression/find_operator, parse_value/"
               "parse_array_literal, parse_when_clause's skeleton, split_top_level_or, extract_goal/find_goal_end/find_matching_brace, "
-              "parse_aggregate_query, has_nested, extract_directive, the assignment split; from the generic lemmas "
+              "parse_aggregate_query, has_nested, extract_directive, the assignment split; strip_comments / mask_string_literals / unmask "
+              "(total for every text incl. raw U+0001/U+0002, overflowing or out-of-range placeholder indices), the accumulate kernels, "
+              "extract_module_from_context, parse_rule_attributes' slices, apply_operator's branches, and the nom stream grammar over abstract "
+              "primitive combinators (no panic for any primitives; proper-suffix progress under their contract); from the generic lemmas "
               "boundary_of_charIndices / ascii_delim_boundary / find_plus_len_boundary. Tied to the Rust code by a differential check "
               "(model prediction vs implementation per input) and supported by a labelled robustness search over all seven entry "
-              "points in child processes. PARTIAL: rexile, nom and stack bytes are outside the model.")
-LEVEL_NOTE = ("Partial: only the kernels listed are modelled; the regex engine (rexile), nom and formatting are exercised by search only. "
+              "points in child processes. PARTIAL: rexile, the internals of nom's primitives and stack bytes are outside the model.")
+LEVEL_NOTE = ("Partial: only the kernels listed are modelled; the regex engine (rexile), nom's primitive combinators (contract assumed) and formatting are exercised by search only. "
               "Trusted: Lean kernel + {propext, Classical.choice, Quot.sound}; str-as-List-Char abstraction; hand-written model tied by differential testing.")
 DESIGN_REF = "§6 C05"
 
@@ -118,18 +162,32 @@ def agree(case, impl, model):
     if model == "-":
         return True
     if model == "fine":
-        return impl == "err" or impl == "ok" or impl.startswith("ok ")
+        return impl == "err" or impl.startswith("err ") or impl == "ok" or impl.startswith("ok ")
     if model == "panic":
         return impl.startswith("panic")
     return impl == model
 
 
 def _long_when_leaf(s):
+    """is there a `when` leaf of more than 100 bytes as parse_when_clause sees it: `&&` / `||` split only at
+    parenthesis depth 0 (an unbalanced `(` keeps the rest of the clause in one leaf)"""
     i = s.find("when")
     if i < 0:
         return False
-    parts = re.split(r"&&|\|\||then|\}|;", s[i + 4:])
-    return any(len(p.encode()) > 100 for p in parts)
+    for clause in re.split(r"then|\}|;", s[i + 4:]):
+        depth, run, j = 0, 0, 0
+        while j < len(clause):
+            two = clause[j:j + 2]
+            if depth == 0 and two in ("&&", "||"):
+                run, j = 0, j + 2
+                continue
+            c = clause[j]
+            depth += 1 if c == "(" else -1 if c == ")" else 0
+            run += len(c.encode())
+            if run > 100:
+                return True
+            j += 1
+    return False
 
 
 def extra(ctx):
